@@ -163,6 +163,15 @@ class RealConn(object):
         self.conn.decoder = self.dec
         self.client = bool(op['client'])
         self.trace = []          # (op, obs) history, for the oracles
+        # how often the library emptied its own output buffer (a received GOAWAY does): a buffer that is emptied and
+        # refilled with the same bytes looks untouched from outside
+        self.clears = 0
+        orig_clear = self.conn.clear_outbound_data_buffer
+
+        def tap_clear():
+            self.clears += 1
+            return orig_clear()
+        self.conn.clear_outbound_data_buffer = tap_clear
 
     # -- read-only peeks ---------------------------------------------------
     def outbuf(self):
@@ -227,6 +236,7 @@ class RealConn(object):
         snap_before = self.snapshot()
         nenc = len(self.enc.log)
         ndec = len(self.dec.log)
+        nclears = self.clears
         events = []
         try:
             val = self._call(op)
@@ -262,7 +272,7 @@ class RealConn(object):
             'enc': [self._fmt_enc(r) for r in enc_recs],
             'peek': self.peek(),
             # raw material (not printed): for oracles and for the model's HPACK oracle annex
-            'raw_events': events, 'exc': exc, 'appended': after[len(before):] if after.startswith(before) else None,
+            'raw_events': events, 'exc': exc, 'appended': after[len(before):] if after.startswith(before) and self.clears == nclears else None,
             'outbuf': after, 'enc_recs': enc_recs, 'dec_recs': dec_recs,
             'snap_before': snap_before, 'snap_after': self.snapshot(), 'outbuf_before': before,
         }
